@@ -108,6 +108,38 @@ def run(tier, t0):
     # C10.2 parse_more consumes whole lines only
     res.rule('C10.2', 0, floor=2, note='parse_more returns 0 or the length of the input truncated after its last newline')
     pm = need_fn(res, c, 'breakpad_symbols::sym_file::parser::SymbolParser::parse_more', 'C10.2')
+    # C10.6 everything parse_more remembers from one line to the next lives in the parser (self), not in locals of the
+    # call: a local carried round the line loop is reset at every chunk boundary, so decisions made with it depend on
+    # where the reader happened to split the file
+    res.rule('C10.6', 0, floor=1, note='the only local carried round parse_more\'s line loop is the remaining input slice')
+    if pm is not None:
+        lv = live_in(pm)
+        loops = pm.loops()
+        main = max(loops.items(), key=lambda kv: len(kv[1])) if loops else None
+        if main is None:
+            res.error('C10.6', 'no loop found in parse_more')
+        else:
+            h, body = main
+            defs_in = set()
+            for b in body:
+                for st in pm.blocks[b]['s']:
+                    if st['k'] == 'assign' and not st['lhs'].get('p') and not is_log_term(st):
+                        defs_in.add(st['lhs']['l'])
+                tt = pm.blocks[b]['t']
+                if tt['k'] == 'call' and tt.get('dest') and not tt['dest'].get('p') and not is_log_term(tt):
+                    defs_in.add(tt['dest']['l'])
+            carried = sorted(lv[h] & defs_in)
+            res.rule('C10.6', len(carried))
+            for l in carried:
+                ty = pm.local_ty(l) or ''
+                if ty != '&[u8]':
+                    res.violation('C10.6', 'C10.6|carried|%s' % (pm.local_name(l) or ty), pm, pm.line,
+                                  'parse_more carries the local `%s: %s` from one line to the next: it starts afresh at every call, i.e. at every chunk boundary of the streaming loops, so the parse depends on the chunking' % (pm.local_name(l) or '_%d' % l, ty))
+            outer = sorted(lv[h] - defs_in)
+            for l in outer:
+                nm = pm.local_name(l)
+                if l > pm.argc and nm not in ('orig_input',) and (pm.local_ty(l) or '') != '&[u8]':
+                    res.violation('C10.6', 'C10.6|outer|%s' % (nm or pm.local_ty(l)), pm, pm.line, 'the line loop of parse_more reads the per-call local `%s`' % (nm or '_%d' % l))
     if pm is not None:
         oks = [pm.expand(t) for (b, i, t) in ret_assigns(pm) if t[0] == 'adt' and t[1].endswith('Result::Ok')]
         res.rule('C10.2', len(oks))
